@@ -1,202 +1,22 @@
-(* Ranking through a table of five-slot selections (Six / Seven), assuming only that every row of the
-   table is WELL FORMED (five distinct in-range slot indices) and the table is non-empty. Enough for:
-   the reported hand is a sorted witness from the input (C03), the value is a real rank (C04), the
-   value is invariant under suit relabelling (C08). Completeness of the table (every combination is
-   listed) is needed only for C02 / C09 and is used in Proofs/C02.v. *)
-From Coq Require Import Sorting.Permutation Sorting.Sorted.
-From CKC Require Import Base.Prelude Base.Reflect Base.SortN Base.Combs Spec.Layout Spec.Poker.
-From CKC Require Import Model.Card Model.Hands Model.Five Model.HandRank.
-From CKC Require Import Proofs.CardFacts Proofs.SortFacts Proofs.CombFacts Proofs.BitFacts Proofs.FiveFacts
-  Proofs.PokerFacts Proofs.RankedFacts Proofs.ShapeFacts Proofs.ValidFacts Proofs.C01 Proofs.BestFacts.
-From CKC Require Export Proofs.FreeFacts.
-From CKC Require Import Gen.Consts Gen.Decks.
+(* The rules-of-poker instance of the generic table lemmas: [value5 c] = the ordinal of the shape of
+   five cards; by C01 (full reflection of the lookup tables) the five-card evaluation returns it. *)
+From Coq Require Import Sorting.Permutation.
+From CKC Require Import Base.Prelude Base.Reflect Spec.Layout Spec.Poker.
+From CKC Require Import Model.Card Model.Hands Model.Five.
+From CKC Require Import Proofs.FiveFacts Proofs.RankedFacts Proofs.HandFacts Proofs.C01.
+From CKC Require Export Proofs.GenericTable.
 Open Scope N_scope.
 
 (* the poker value of five cards under the rules (Spec): the ordinal of their shape *)
 Definition value5 (ws : list N) : N := ordinal (shape_of ws).
 
-Lemma sub_hand n ws c : HandN n ws -> Subseq c ws -> length c = 5%nat -> Hand5 c.
-Proof.
-  intros (HL & HR & HN) HS HC. repeat split; [exact HC| |eapply Subseq_NoDup; eauto].
-  apply Forall_forall. intros x Hx. rewrite Forall_forall in HR. apply HR. eapply Subseq_incl; eauto.
-Qed.
-
 Lemma value5_range c : Hand5 c -> 1 <= value5 c <= 7462.
 Proof. intros H. apply (ordinal_range (shape_of c)), shape_class, H. Qed.
 
-(* slot order does not matter for the rule-based value *)
+Lemma value5_ranks chk : ranks_with chk value5.
+Proof.
+  intros c H. split; [apply hrv5_ordinal, H|]. pose proof (value5_range c H). lia.
+Qed.
+
 Lemma value5_perm s c : Hand5 s -> Permutation s c -> value5 s = value5 c.
-Proof.
-  intros HS HP.
-  assert (HC : Hand5 c).
-  { destruct HS as (HL & HR & HN). repeat split.
-    - rewrite <- HL. symmetry. apply Permutation_length, HP.
-    - eapply Permutation_Forall; eauto.
-    - eapply Permutation_NoDup; eauto. }
-  pose proof (hrv5_ordinal false s HS) as E1. pose proof (hrv5_ordinal false c HC) as E2.
-  rewrite (hrv5_perm false s c (proj1 HS) HP) in E1. unfold value5. congruence.
-Qed.
-
-(* ---- minimum of a list -------------------------------------------------------------------------- *)
-Definition min_list (l : list N) : N := match l with [] => 0 | x :: r => fold_left N.min r x end.
-
-Lemma fold_min_le r : forall x, fold_left N.min r x <= x /\ (forall y, In y r -> fold_left N.min r x <= y).
-Proof.
-  induction r as [|a r IH]; intros x; cbn [fold_left]; [split; [lia | intros y []]|].
-  destruct (IH (N.min x a)) as [H1 H2]. split; [lia|]. intros y [<-|Hy]; [lia | apply H2, Hy].
-Qed.
-Lemma fold_min_in r : forall x, fold_left N.min r x = x \/ In (fold_left N.min r x) r.
-Proof.
-  induction r as [|a r IH]; intros x; cbn [fold_left]; [left; reflexivity|].
-  destruct (IH (N.min x a)) as [H|H]; [|right; right; exact H].
-  destruct (N.min_spec x a) as [[_ E]|[_ E]]; rewrite E in H; [left | right; left]; congruence.
-Qed.
-Lemma min_list_char l v : In v l -> (forall y, In y l -> v <= y) -> v = min_list l.
-Proof.
-  intros Hin Hmin. destruct l as [|x r]; [destruct Hin|]. cbn [min_list].
-  destruct (fold_min_le r x) as [H1 H2].
-  assert (Hle : fold_left N.min r x <= v).
-  { destruct Hin as [<-|Hin]; [exact H1 | apply H2, Hin]. }
-  assert (Hge : v <= fold_left N.min r x).
-  { destruct (fold_min_in r x) as [E|E]; [rewrite E; apply Hmin; left; reflexivity | apply Hmin; right; exact E]. }
-  lia.
-Qed.
-
-Lemma Forall2_map_r {A B} (R : A -> B -> Prop) (f : A -> B) (l : list A) :
-  (forall x, In x l -> R x (f x)) -> Forall2 R l (map f l).
-Proof.
-  induction l as [|a l IH]; intros H; cbn [map]; constructor.
-  - apply H. left. reflexivity.
-  - apply IH. intros x Hx. apply H. right. exact Hx.
-Qed.
-
-
-Lemma sel_hand5 n ws p : HandN n ws -> valid_row n p -> Hand5 (sel ws p) /\ incl (sel ws p) ws.
-Proof.
-  intros (HL & HR & HN) (PL & PN & PR). rewrite <- HL in PR.
-  assert (Hincl : incl (sel ws p) ws).
-  { intros x Hx. unfold sel in Hx. apply in_map_iff in Hx. destruct Hx as [i [<- Hi]].
-    rewrite Forall_forall in PR. apply nthN_In, PR, Hi. }
-  split; [|exact Hincl]. repeat split.
-  - unfold sel. rewrite map_length. exact PL.
-  - apply Forall_forall. intros x Hx. rewrite Forall_forall in HR. apply HR, Hincl, Hx.
-  - unfold sel. apply NoDup_map_inj_in; [|exact PN]. intros i j Hi Hj E.
-    rewrite Forall_forall in PR. pose proof (PR i Hi) as Li. pose proof (PR j Hj) as Lj.
-    unfold nthN in E. apply (proj1 (NoDup_nth ws 0) HN) in E; [lia | exact Li | exact Lj].
-Qed.
-
-Definition cands (perms : list (list N)) (ws : list N) : list (N * list N) :=
-  map (fun p => (value5 (sel ws p), sel ws p)) perms.
-
-Lemma loop_pure n perms chk ws :
-  valid_table n perms -> HandN n ws ->
-  fold_left (best_step chk ws) perms (Ok (0, FIVE_DEFAULT)) = Ok (best_of (cands perms ws) (0, FIVE_DEFAULT)).
-Proof.
-  intros [_ T] H. apply best_fold_pure. unfold cands. apply Forall2_map_r. intros p Hp. cbn [fst snd].
-  pose proof H as (HL & HR & HN). pose proof (T p Hp) as (PL & PN & PR).
-  split.
-  - apply select_map. rewrite HL. exact PR.
-  - apply hrv5_ordinal. apply (sel_hand5 n ws p H (T p Hp)).
-Qed.
-
-(* the value the table-driven loop computes: the minimum over the rows of the table *)
-Definition table_value (perms : list (list N)) (ws : list N) : N :=
-  min_list (map (fun p => value5 (sel ws p)) perms).
-
-(* THE RESULT for a well-formed table *)
-Lemma best_table n perms chk ws :
-  valid_table n perms -> HandN n ws ->
-  exists p,
-    In p perms /\ hrvh_best chk perms ws = Ok (value5 (sel ws p), sort_desc (sel ws p)) /\
-    (forall q, In q perms -> value5 (sel ws p) <= value5 (sel ws q)) /\
-    value5 (sel ws p) = table_value perms ws.
-Proof.
-  intros T H. pose proof H as (HL & HR & HN). pose proof T as [PNE TR].
-  unfold hrvh_best. rewrite (loop_pure n perms chk ws T H).
-  assert (Hnz : forall x, In x (cands perms ws) -> fst x <> 0).
-  { intros x Hx. unfold cands in Hx. apply in_map_iff in Hx. destruct Hx as [p [<- Hp]]. cbn [fst].
-    pose proof (value5_range _ (proj1 (sel_hand5 n ws p H (TR p Hp)))). lia. }
-  assert (Hne : cands perms ws <> []).
-  { unfold cands. destruct perms; [congruence | discriminate]. }
-  pose proof (best_of_min (cands perms ws) FIVE_DEFAULT Hne Hnz) as HB. cbv zeta in HB.
-  destruct (best_of (cands perms ws) (0, FIVE_DEFAULT)) as [v h]. cbn [fst] in HB. cbn [bind].
-  destruct HB as (Hin & _ & Hmin).
-  unfold cands in Hin. apply in_map_iff in Hin. destruct Hin as [p [Heq Hp]]. injection Heq as Hv Hh.
-  subst h v. exists p.
-  assert (Hq : forall q, In q perms -> value5 (sel ws p) <= value5 (sel ws q)).
-  { intros q Hq. specialize (Hmin (value5 (sel ws q), sel ws q)). cbn [fst] in Hmin. apply Hmin.
-    unfold cands. apply in_map_iff. exists q. split; [reflexivity | exact Hq]. }
-  repeat split; try assumption.
-  unfold table_value. apply min_list_char.
-  - apply (in_map (fun p => value5 (sel ws p))), Hp.
-  - intros y Hy. apply in_map_iff in Hy. destruct Hy as [q [<- Hq']]. apply Hq, Hq'.
-Qed.
-
-Lemma hrvh_table chk n ws :
-  (n = 6 \/ n = 7)%nat -> HandN n ws ->
-  exists perms p,
-    valid_table n perms /\ In p perms /\
-    hrvh chk ws = Ok (value5 (sel ws p), sort_desc (sel ws p)) /\
-    (forall q, In q perms -> value5 (sel ws p) <= value5 (sel ws q)) /\
-    value5 (sel ws p) = table_value perms ws /\
-    (perms = if Nat.eqb n 6 then SIX_PERMUTATIONS else SEVEN_PERMUTATIONS).
-Proof.
-  intros Hn H. pose proof H as (HL & _). unfold hrvh. rewrite HL. destruct tables_valid as [T6 T7].
-  destruct Hn as [->| ->].
-  - destruct (best_table 6 SIX_PERMUTATIONS chk ws T6 H) as (p & A & B & C & D).
-    exists SIX_PERMUTATIONS, p. split; [exact T6|]. split; [exact A|]. split; [exact B|]. split; [exact C|]. split; [exact D | reflexivity].
-  - destruct (best_table 7 SEVEN_PERMUTATIONS chk ws T7 H) as (p & A & B & C & D).
-    exists SEVEN_PERMUTATIONS, p. split; [exact T7|]. split; [exact A|]. split; [exact B|]. split; [exact C|]. split; [exact D | reflexivity].
-Qed.
-
-(* the value of six / seven distinct real cards through every entry point: a real rank *)
-Lemma value_table_ok chk n ws :
-  (n = 6 \/ n = 7)%nat -> HandN n ws ->
-  let v := table_value (if Nat.eqb n 6 then SIX_PERMUTATIONS else SEVEN_PERMUTATIONS) ws in
-  hand_rank_value chk ws = Ok v /\
-  rmap (fun x => hr_value (hr_from x)) (hand_rank_value chk ws) = Ok v /\
-  rmap fst (hrvh chk ws) = Ok v /\
-  hand_rank_value_validated chk ws = Ok v /\
-  1 <= v <= 7462.
-Proof.
-  intros Hn H v. destruct (hrvh_table chk n ws Hn H) as (perms & p & T & Hp & Hr & _ & Hv & ->).
-  fold v in Hv. rewrite Hv in Hr.
-  assert (E1 : hand_rank_value chk ws = Ok v) by (unfold hand_rank_value, rmap; rewrite Hr; reflexivity).
-  pose proof H as (HL & HR & HN).
-  assert (R : 1 <= v <= 7462).
-  { rewrite <- Hv. apply value5_range. apply (sel_hand5 n ws p H (proj2 T p Hp)). }
-  repeat split; try apply R.
-  - exact E1.
-  - rewrite E1. reflexivity.
-  - rewrite Hr. reflexivity.
-  - unfold hand_rank_value_validated. rewrite (proj2 (is_valid_spec ws) (conj HR HN)). exact E1.
-Qed.
-
-(* C03: the reported hand *)
-Lemma witness_ok chk n ws :
-  (n = 6 \/ n = 7)%nat -> HandN n ws ->
-  exists v h,
-    hrvh chk ws = Ok (v, h) /\ hand_rank_value chk ws = Ok v /\
-    length h = 5%nat /\ NoDup h /\ incl h ws /\ noninc h /\ Forall RealCard h /\
-    hrvh chk h = Ok (v, h) /\ hand_rank_value chk h = Ok v.
-Proof.
-  intros Hn H. destruct (hrvh_table chk n ws Hn H) as (perms & p & T & Hp & Hr & _ & _ & _).
-  destruct (sel_hand5 n ws p H (proj2 T p Hp)) as [H5 Hincl].
-  set (h := sel ws p) in *.
-  pose proof (sort_desc_perm h) as HP.
-  assert (H5' : Hand5 (sort_desc h)).
-  { destruct H5 as (A & B & C). repeat split.
-    - rewrite sort_desc_length. exact A.
-    - eapply Permutation_Forall; [symmetry; exact HP | exact B].
-    - eapply Permutation_NoDup; [symmetry; exact HP | exact C]. }
-  destruct (value_ok chk (sort_desc h) H5') as (V1 & V2 & _). cbv zeta in V1, V2.
-  assert (Eo : ordinal (shape_of (sort_desc h)) = value5 h).
-  { symmetry. apply (value5_perm h (sort_desc h) H5). symmetry. exact HP. }
-  rewrite Eo in V1, V2.
-  exists (value5 h), (sort_desc h). destruct H5' as (A & B & C).
-  repeat split; try assumption.
-  - unfold hand_rank_value, rmap. rewrite Hr. reflexivity.
-  - intros x Hx. apply (proj1 (sort_desc_In x h)) in Hx. apply Hincl, Hx.
-  - apply sort_desc_sorted.
-Qed.
-
+Proof. apply (val_perm false value5 s c (value5_ranks false)). Qed.
